@@ -55,6 +55,28 @@ def helper5(x, y, c, d):
         return x ^ y
     return x & y
 
+
+def helper6(acc, p, q, c0, c1):
+    # the if-body falls through, a later branch returns, code follows the statement
+    if c0:
+        acc @= p
+    elif c1:
+        return q
+    acc @= acc + 1
+    return p
+
+
+def helper7(sig, p, q, c0, c1):
+    if c0:
+        sig <<= p
+    elif c1:
+        sig <<= q
+        return p + q
+    else:
+        return q
+    sig <<= p + 1
+    return p
+
 '''
 
 LOCALS = {"loc": ("Signal", U(3)), "lv": ("Variable", U(3)), "lb": ("Signal", BV(2))}
@@ -69,11 +91,13 @@ def render(body_lines, reset="sync", ename="Seq", use_arr=False, locals_used=(),
               "    o1 = Port.output(Unsigned[3], default=Null)", "    o2 = Port.output(Unsigned[3], default=Null)",
               "    ob = Port.output(Bit, default=Null)", "    ov = Port.output(BitVector[4], default=Null)",
               "    p = Port.output(Unsigned[3], default=Unsigned[3](5))", "    oa = Port.output(Unsigned[2], default=Null)",
-              "    pv = Port.output(BitVector[3], default=BitVector[3]('010'))",
+              "    pv = Port.output(BitVector[3], default=BitVector[3]('010'))"] + \
+        (["    pn = Port.output(Bit, default=False, noreset=True)"] if any("self.pn" in ln for ln in body_lines) else []) + [
               "    def architecture(self):",
               "        x = Variable[Unsigned[3]](Null, name='x')", "        y = Variable[Unsigned[3]](Null, name='y')"]
     if use_arr:
         lines.append("        arr = Signal[Array[Unsigned[2], 4]](Null, name='arr')")
+        lines.append("        ptr = Variable[Unsigned[2]](Null, name='ptr')")
     if reset == "sync":
         lines.append("        @std.sequential(std.Clock(self.clk), std.Reset(self.reset))")
     elif reset == "async":
@@ -81,7 +105,7 @@ def render(body_lines, reset="sync", ename="Seq", use_arr=False, locals_used=(),
     else:
         lines.append("        @std.sequential(std.Clock(self.clk))")
     lines.append("        def proc():")
-    lines.append("            nonlocal x, y")
+    lines.append("            nonlocal x, y" + (", ptr" if use_arr else ""))
     for ln in body_lines:
         lines.append("            " + ln)
     src = "\n".join(lines) + "\n"
@@ -94,6 +118,9 @@ def render(body_lines, reset="sync", ename="Seq", use_arr=False, locals_used=(),
                  "x": Obj("x", U(3), "var", 0), "y": Obj("y", U(3), "var", 0)})
     if use_arr:
         objs["arr"] = Obj("arr", ArrTy(U(2), 4), "signal", 0)
+        objs["ptr"] = Obj("ptr", U(2), "var", 0)
+    if any("self.pn" in ln for ln in body_lines):
+        objs["pn"] = Obj("pn", BIT, "out", 0, noreset=True)
     for n in locals_used:
         q, t = LOCALS[n]
         objs[n] = Obj(n, t, "var" if q == "Variable" else "signal", None, local=True)
@@ -248,6 +275,13 @@ CORE = [
     ["self.o1 <<= helper4(self.a, self.c, self.d, self.ob)", "self.o2 <<= helper4(x, self.d, self.c, self.ov[0])"],
     ["self.o1 <<= helper4(self.a, self.c, self.d, self.ob)", "self.o2 <<= self.b", "x @= x + 1"],
     ["self.o1 <<= helper5(self.a, self.b, self.c, self.d)"],
+    ["self.o1 <<= helper6(x, self.a, self.b, self.c, self.d)", "self.o2 <<= x"],
+    ["self.o2 <<= helper6(y, self.b, x, self.d, self.c)", "x @= y + 1"],
+    ["self.o1 <<= helper7(self.o2, self.a, self.b, self.c, self.d)"],
+    ["t = helper7(self.p, self.a, x, self.d, self.c)", "x @= t", "self.o1 <<= t"],
+    # pushed signals return to their default in every activation that does not push them, noreset or not
+    ["if self.c:", "    self.pn ^= True", "self.o1 <<= self.a"],
+    ["if self.c:", "    self.pn ^= self.d", "else:", "    self.ob ^= True"],
     ["x @= helper5(x, self.a, self.d, self.c)", "self.o2 <<= helper4(x, self.c, self.d, self.ob) + 1"],
     # python-level names merged over branches
     ["t = self.a & self.b", "if self.c:", "    self.o1 <<= t", "else:", "    self.o2 <<= t + 1"],
@@ -274,6 +308,10 @@ CORE_LOCAL += [
 ]
 
 CORE_ARR = [
+    # a name bound to an element selected by a VARIABLE index refers to the element selected at that moment
+    ["ptr @= self.idx", "slot = arr[ptr]", "ptr @= ptr + 1", "slot <<= self.a[1:0].unsigned", "self.oa <<= arr[ptr]"],
+    ["ptr @= self.idx", "val = arr[ptr]", "ptr @= ptr + 1", "self.oa <<= val", "arr[ptr] <<= self.idx"],
+    ["ptr @= ptr + 1", "slot = arr[ptr]", "if self.c:", "    ptr @= self.idx", "slot <<= ptr", "self.oa <<= arr[self.idx]"],
     ["arr[self.idx] <<= self.a[1:0].unsigned", "self.oa <<= arr[self.idx]"],
     ["arr[0] <<= self.idx", "arr[3] <<= self.a[2:1].unsigned", "self.oa <<= arr[self.idx]"],
     ["if self.c:", "    arr[self.idx] <<= 3", "else:", "    arr[1] <<= self.idx", "self.oa <<= arr[2]"],
